@@ -128,7 +128,8 @@ def c16(run):
     run.assumptions += [WRITER_MODEL_NOTE + " (destination failing at write 1..2; invariant AfterFailNoWrites)",
                         "ReadFrom's return value after a destination failure is open; it must send nothing"]
     traces_check(run, b, "c16w", "TraceWsWriter")
-    run.assumptions += [READER_NOTE]
+    run.assumptions += [READER_NOTE, READER_MODEL_NOTE]
+    vlib.tlc_model(run, "WsReaderImpl", cfg="WsReaderImpl_cut", workers=12, xmx="12g")
     traces_check(run, b, "c16r", "TraceWsReader")
     return run.finish("fault_enumeration")
 
@@ -149,16 +150,24 @@ def c08(run):
     vlib.tlc_model(run, "CtlWriterImpl", workers=4)
     run.assumptions += ["control writer: limit 125 for must-fail; must-succeed only while the cumulative total stays within the documented capacity"]
     traces_check(run, b, "c08w", "TraceWsWriter")
+    run.assumptions += ["replies are decoded and unmasked by the harness' own codec; WsControl!ControlReply is the oracle, using WsCheck!Broken with the peer's state for 'the peer's own header check accepts it'",
+                        "close codes 1012-1014 and >= 5000 are open: echo or refusal both accepted"]
+    records_check(run, b, "c08h", "C08Records")
     return run.finish("model_checking")
 
 
 READER_NOTE = "WsReaderMon is a deterministic monitor over public-call events; `pulled` (bytes the reader took from the harness-owned transport) determines which frame headers were consumed; frame offsets come from the harness' own codec"
 
 
+READER_MODEL_NOTE = "WsReaderImpl (the real NextFrame/Read/Discard algorithm over an abstract frame stream with 1-byte headers) is explored exhaustively by TLC for all streams of <= 3 frames over the alphabet, against the same monitor that judges the real traces"
+
+
 @prop("C04")
 def c04(run):
     b = run.build()
-    run.assumptions += [READER_NOTE, "how many bytes one Read returns is left open; NextReader drops intermediate control frames as documented"]
+    run.assumptions += [READER_NOTE, "how many bytes one Read returns is left open; NextReader drops intermediate control frames as documented",
+                        READER_MODEL_NOTE]
+    vlib.tlc_model(run, "WsReaderImpl", workers=12, xmx="12g")
     traces_check(run, b, "c04", "TraceWsReader")
     return run.finish("model_checking")
 
@@ -167,6 +176,8 @@ def c04(run):
 def c05(run):
     b = run.build()
     run.assumptions += [READER_NOTE, "which of several broken rules is reported is left open; the oracle for 'first offending frame' is WsCheck!Broken folded over the fragmentation state (WsReaderMon!FirstOffending)"]
+    run.assumptions += [READER_MODEL_NOTE]
+    vlib.tlc_model(run, "WsReaderImpl", cfg="WsReaderImpl_bad", workers=12, xmx="12g")
     traces_check(run, b, "c05", "TraceWsReader")
     return run.finish("model_checking")
 
@@ -184,6 +195,7 @@ def c07(run):
 @prop("C13")
 def c13(run):
     b = run.build()
-    run.assumptions += [READER_NOTE]
+    run.assumptions += [READER_NOTE, READER_MODEL_NOTE]
+    vlib.tlc_model(run, "WsReaderImpl", cfg="WsReaderImpl_bad", workers=12, xmx="12g")
     traces_check(run, b, "c13r", "TraceWsReader")
     return run.finish("model_checking")
